@@ -228,7 +228,8 @@ def run_case(case):
             _, cm, fm = solve.solve(Sh, np.roll(q3, (-s_y, -s_x), axis=(0, 1)), lv2, precision=prec, srf_bg_conc=bg)
             for nm, A, B in (("conc", cm, cw), ("flx", fm, fw)):
                 counters["recentre_whole_window_cells"] = counters.get("recentre_whole_window_cells", 0) + int(A.size)
-                e = float(np.max(np.abs(B - A))) / max(float(np.max(np.abs(A - (bg if nm == "conc" else 0.0)))), 1e-300)
+                # (the background is stored in the same mean mode as the field: storage rounding is relative to plume + |background|)
+                e = float(np.max(np.abs(B - A))) / max(float(np.max(np.abs(A - (bg if nm == "conc" else 0.0)))) + (abs(bg) if nm == "conc" else 0.0), 1e-300)
                 key = f"recentring_whole_window_{prec}"
                 resid[key] = max(resid.get(key, 0.0), e)
                 tolw = solve.tol(prec, Sh["G"], cr=Sh["cr"])  # two different source spectra: rounding amplified by e^G, as everywhere
